@@ -293,9 +293,16 @@ def walk_under(fn_node, decide):
                     and not (isinstance(pv, ast.Name) and pv.id == e.id):
                 _in_flag.append(1)
                 try:
-                    return truth(ast.fix_missing_locations(_clone_expr(pv)), env)
+                    res = truth(ast.fix_missing_locations(_clone_expr(pv)), env)
                 finally:
                     _in_flag.pop()
+                out = []
+                for en, tv in res:
+                    en = dict(en)
+                    en[t] = tv                      # the flag itself is a decided atom of this execution, like any other test
+                    en[TESTS] = en.get(TESTS, ()) + ((t, tv),)
+                    out.append((en, tv))
+                return out
         out = []
         for v in ([d] if d is not None else [True, False]):
             en = dict(env)
